@@ -2,7 +2,7 @@
    and the connection check; the iterative stages of ihu are not modelled, see DESIGN.md). *)
 From Coq Require Import List Arith ZArith Bool.
 Import ListNotations.
-From PF Require Import Arr Net Elev ElevSpec Upscale UpscaleSpec.
+From PF Require Import Arr Net Elev ElevSpec Upscale UpscaleSpec UpscaleId.
 
 (* shape: with nrow = ceil(subnrow/s), ncol = ceil(subncol/s) every fine pixel has a coarse cell inside the raster *)
 Theorem coarse_shape_covers : forall subnrow subncol cs subidx, 0 < cs -> 0 < subncol -> subidx < subnrow * subncol ->
@@ -100,6 +100,28 @@ Print Assumptions first_outlet_downstream.
 Theorem outlet_map_spec : forall sds out t, nth t (outlet_map sds out) false = true <-> (In t out /\ t < length sds).
 Proof. exact UpscaleSpec.outlet_map_spec. Qed.
 Print Assumptions outlet_map_spec.
+
+(* a scale factor of 1 reproduces the input network (methods eam and eam_plus), for every closed fine network with
+   positive upstream areas whose valid pixels are all effective-area pixels (true of upscale.effective_area for
+   cellsize 1: ri = ci = 0); eam_plus additionally needs the fine links to join 8-neighbours (D8 / LDD rasters) *)
+Theorem eam_scale1 : forall sds upa subnrow subncol ea, 0 < subncol -> length sds = subnrow * subncol ->
+  (forall t, t < length sds -> sd sds t < length sds -> sd sds (sd sds t) < length sds) ->
+  (forall t, t < length sds -> sd sds t <= length sds) ->
+  (forall t, t < length sds -> sd sds t < length sds -> (0 < nth t upa 0)%Z) ->
+  (forall t, t < length sds -> sd sds t < length sds -> eaf ea t = true) ->
+  fst (fst (up_eam sds upa subnrow subncol 1 ea)) = sds.
+Proof. exact UpscaleId.eam_scale1. Qed.
+Print Assumptions eam_scale1.
+
+Theorem eam_plus_scale1 : forall sds upa subnrow subncol ea, 0 < subncol -> length sds = subnrow * subncol ->
+  (forall t, t < length sds -> sd sds t < length sds -> sd sds (sd sds t) < length sds) ->
+  (forall t, t < length sds -> sd sds t <= length sds) ->
+  (forall t, t < length sds -> sd sds t < length sds -> (0 < nth t upa 0)%Z) ->
+  (forall t, t < length sds -> sd sds t < length sds -> eaf ea t = true) ->
+  (forall t, t < length sds -> sd sds t < length sds -> in_d8 t (sd sds t) subncol = true) ->
+  fst (fst (up_eam_plus sds upa subnrow subncol 1 ea)) = sds.
+Proof. exact UpscaleId.eam_plus_scale1. Qed.
+Print Assumptions eam_plus_scale1.
 
 (* non-vacuity: a 2x4 raster draining east along the top row, scale factor 2 *)
 Example upscale_example :
